@@ -253,3 +253,84 @@ fn arith_reach_witness() {
     }
     std::mem::forget(r);
 }
+
+// ---------------------------------------------------------------- value conversions (C18, kernel part)
+// `Primitive::{as_integer_cast, as_usize_cast}` turn a value into the integer an index, a range bound or a count is
+// made of. For ALL payloads: the call returns, and an Ok result is the mathematical value of the primitive (compared
+// in i128 / within the documented tolerance for a Number) - never a wrapped or saturated stand-in.
+fn check_conv_i64(r: Result<i64, crate::parser::model_transformer::TransformError>, exact: i128) {
+    if let Ok(v) = &r {
+        assert!(*v as i128 == exact);
+    }
+    std::mem::forget(r);
+}
+fn check_conv_usize(r: Result<usize, crate::parser::model_transformer::TransformError>, exact: i128) {
+    if let Ok(v) = &r {
+        assert!(*v as i128 == exact);
+    }
+    std::mem::forget(r);
+}
+#[kani::proof]
+fn arith_conv_posint_as_integer() {
+    let n: u64 = kani::any();
+    let p = Primitive::PositiveInteger(n);
+    check_conv_i64(p.as_integer_cast(), n as i128);
+    std::mem::forget(p);
+}
+#[kani::proof]
+fn arith_conv_int_as_usize() {
+    let n: i64 = kani::any();
+    let p = Primitive::Integer(n);
+    check_conv_usize(p.as_usize_cast(), n as i128);
+    std::mem::forget(p);
+}
+#[kani::proof]
+fn arith_conv_posint_bool_exact() {
+    let n: u64 = kani::any();
+    let p = Primitive::PositiveInteger(n);
+    check_conv_usize(p.as_usize_cast(), n as i128);
+    std::mem::forget(p);
+    let b: bool = kani::any();
+    let p = Primitive::Boolean(b);
+    check_conv_usize(p.as_usize_cast(), b as i128);
+    check_conv_i64(p.as_integer_cast(), b as i128);
+    std::mem::forget(p);
+}
+#[kani::proof]
+fn arith_conv_number_as_integer() {
+    // a Number converts when it is whole (within the comparison tolerance): the result is then that whole number
+    let x: f64 = kani::any();
+    let p = Primitive::Number(x);
+    let r = p.as_integer_cast();
+    if let Ok(v) = &r {
+        assert!(x.is_finite());
+        let d = x - (*v as f64);
+        assert!(d > -1.0 && d < 1.0);
+    }
+    std::mem::forget(r);
+    std::mem::forget(p);
+}
+#[kani::proof]
+fn arith_conv_number_as_usize() {
+    let x: f64 = kani::any();
+    let p = Primitive::Number(x);
+    let r = p.as_usize_cast();
+    if let Ok(v) = &r {
+        assert!(x.is_finite());
+        let d = x - (*v as f64);
+        assert!(d > -1.0 && d < 1.0);
+    }
+    std::mem::forget(r);
+    std::mem::forget(p);
+}
+#[kani::proof]
+fn arith_conv_reach_witness() {
+    let x: f64 = kani::any();
+    let p = Primitive::Number(x);
+    let r = p.as_integer_cast();
+    if r.is_ok() {
+        assert!(false); // must be reported FAILED
+    }
+    std::mem::forget(r);
+    std::mem::forget(p);
+}
